@@ -109,6 +109,10 @@ def seq_ops(job):
     for n_in, n_out, idx, flag, extra in ((1, 1, 0, 1, {}), (3, 1, 2, 0x83, {}), (3, 1, 2, 0x03, {}), (2, 2, 1, 0x02, {"seq": "mixed"}), (2, 3, 0, 0x81, {"version": 2, "locktime": -1}),
                                           (4, 4, 3, 0x01, {"ss_signed": 107, "amount": 0}), (1, 2, 0, 0x82, {"sc": 603})):
         ops.append(("msg", {"seed": seed, "n_in": n_in, "n_out": n_out, "index": idx, "flag": flag, "a": dict(a0, **extra)}))
+    # the SAME outpoints signed again with different sequences / outputs / amounts (a fee bump re-sign)
+    for extra in ({"seq": "ffffffff"}, {"seq": "mixed"}, {"seq": "00000000"}, {"seq": "fffffffe", "amount": 546}):
+        ops.append(("msg", {"seed": seed, "n_in": 2, "n_out": 2, "index": 0, "flag": 0x01, "a": dict(a0, **extra)}))
+    ops.append(("msg", {"seed": seed, "n_in": 2, "n_out": 1, "index": 1, "flag": 0x01, "a": dict(a0, seq="mixed")}))
     return ops
 
 
